@@ -122,6 +122,9 @@ class FloatModel:
             z3.ForAll([x, y, zz], z3.Implies(z3.And(lt(x, y), lt(y, zz)), lt(x, zz))),
             z3.ForAll([x, y], z3.Or(lt(x, y), lt(y, x), x == y)),   # no NaN (assumption)
         ]
+        zero = self._lits.get("0.0")
+        if zero is not None:
+            ax += [z3.ForAll([x], self.fn["add"](x, zero) == x), z3.ForAll([x], self.fn["add"](zero, x) == x)]
         # literal ordering
         ks = sorted(self._lits, key=float)
         for a, b in zip(ks, ks[1:]):
